@@ -22,6 +22,8 @@ from .common import (
     need,
     prov,
     raised_class,
+    rename_rewrite_ok,
+    rename_rewrite_sites,
     unshipped_modules,
 )
 
@@ -216,10 +218,10 @@ def run(report, p):
         g = cfg_of(f)
         r1.instance(f, call, norm(call)[:100])
         arg0 = call.args[0] if call.args else None
-        origs = pr.origins(arg0, f) if arg0 is not None else []
+        origs = [pr.inline(o, depth=2) for o in pr.origins(arg0, f)] if arg0 is not None else []
+        origs = [a for o in origs for a in alts(o)]
         ok_src = bool(origs)
         subtractions = []
-        comp_nodes = []
         for o in origs:
             t = o
             while t[0] == "op" and t[1] == "Sub":
@@ -232,12 +234,13 @@ def run(report, p):
             okk = sub[0] == "op" and sub[1].startswith("collect-set")
             # only under rename detection
             r1.check(okk and "detect_renaming" in f.params, f, call, "paths are subtracted from the expected set outside rename detection", witness=show(sub)[:200])
-        # the rewrite comprehension
-        comps = [n for n in walk_no_nested(f.node) if isinstance(n, ast.SetComp) and any("renamed" in norm(x) for x in ast.walk(n))]
-        if len(comps) == 1:
-            rewrites[f.qual] = ast.dump(comps[0])
-        else:
-            r1.check(False, f, f.node, "rename rewrite of the expected set not found (exactly one set comprehension over the rename map expected)", construct="rename rewrite")
+        # the rewrite comprehension (here or in a helper this function calls)
+        sites = rename_rewrite_sites(p, pr, f)
+        if len(sites) != 1:
+            raise AnalysisError(f"{f.qual}: expected exactly one rename rewrite of the expected set (a set comprehension over set_of_file_paths()), found {len(sites)}")
+        okrw, why = rename_rewrite_ok(p, pr, sites[0][0], sites[0][1])
+        rewrites[f.qual] = okrw
+        r1.check(okrw, sites[0][0], sites[0][1], "the expected set is not mapped through the rename map: " + why, construct="rename rewrite")
         # discard for every traversed child
         outer, inner = traversal_loop(p, f)
         if outer is None:
@@ -266,8 +269,7 @@ def run(report, p):
         root_arg = call.args[1] if len(call.args) > 1 else None
         trav_root = outer.iter.args[0] if outer.iter.args else None
         r1.check(root_arg is not None and trav_root is not None and norm(root_arg) == norm(trav_root), f, call, "the missing-file filter is given a different root than the traversal walked")
-    vals = list(rewrites.values())
-    r1.check(len(set(vals)) == 1 and len(vals) == len(pipes), None, None, "the rename rewrite of the expected set differs between create / verify / diff", construct="sibling rename rewrite")
+    r1.check(len(rewrites) == len(pipes), None, None, "not every one of create / verify / diff rewrites its expected set through the rename map", construct="sibling rename rewrite")
 
     # ------------------------------------------------------------------ R3.2
     r2 = report.rule("R3.2", "set_of_file_paths covers every generation, every child history and every record (loops unsliced, add on every iteration)", 3)
@@ -285,7 +287,12 @@ def run(report, p):
                 starts = [(m, l) for m, l in ln.succ if l == "iter"]
                 path = g.find_path(ln, {ln.id, g.exit.id}, avoid=sinks, first_edges=starts)
                 r2.check(bool(sinks) and path is None, f, n, "an iteration can finish without adding its paths to the expected set", witness=g.fmt_path(path) if path else None)
-        loops = [norm(n.iter) for n in walk_no_nested(f.node) if isinstance(n, ast.For)]
+        for n in walk_no_nested(f.node):
+            if isinstance(n, (ast.SetComp, ast.ListComp, ast.GeneratorExp)):
+                for gen in n.generators:
+                    r2.instance(f, n, f"{{... for {norm(gen.target)} in {norm(gen.iter)}}}")
+                    r2.check(is_plain_iter(p, gen.iter) and not gen.ifs, f, n, "recorded paths are collected from a slice / filtered view", construct=f"comprehension over {norm(gen.iter)}")
+        loops = [norm(n.iter) for n in walk_no_nested(f.node) if isinstance(n, ast.For)] + [norm(gen.iter) for n in walk_no_nested(f.node) if isinstance(n, (ast.SetComp, ast.ListComp, ast.GeneratorExp)) for gen in n.generators]
         if q.endswith("MHLHistory.set_of_file_paths"):
             r2.check(any(x.endswith("hash_lists") for x in loops) and any(x.endswith("child_histories") for x in loops), f, f.node, "set_of_file_paths must cover all generations and all child histories", construct="set_of_file_paths loops")
 
@@ -299,13 +306,21 @@ def run(report, p):
     c10 = class_with_code(p, 10)
     ok = len(exc_rets) == 1 and isinstance(exc_rets[0].ast.value, ast.Call) and p.resolve_name_expr(exc_rets[0].ast.value.func, tfm.module) == c10
     r3.check(ok, tfm, tfm.node, "the filter does not return the completeness exception (exit 10) for a non-empty list", construct="return Completeness")
+    # the filtered collection: the variable bound to the comprehension / loop that applies the ignore match
+    filt = None
+    for n in walk_no_nested(tfm.node):
+        if isinstance(n, ast.Assign) and isinstance(n.value, (ast.ListComp, ast.SetComp)) and any("match_file" in norm(i) for gen in n.value.generators for i in gen.ifs) and isinstance(n.targets[0], ast.Name):
+            filt = n.targets[0].id
+    if filt is None:
+        raise AnalysisError(f"{tfm.qual}: filtered list of missing paths not recognised")
     for nr in none_rets:
         deps = [(t, l) for t, l in g.control_deps(nr) if t.kind == "test"]
-        okn = len(deps) == 1 and norm(deps[0][0].ast).replace(" ", "") in (f"len({tfm.params[0]})==0", f"not{tfm.params[0]}") and deps[0][1] == "T"
+        tx = norm(deps[0][0].ast).replace(" ", "") if len(deps) == 1 else ""
+        okn = len(deps) == 1 and ((tx in (f"len({filt})==0", f"not{filt}") and deps[0][1] == "T") or (tx in (filt, f"len({filt})>0", f"len({filt})!=0") and deps[0][1] == "F"))
         r3.check(okn, tfm, nr.ast, "the filter returns 'nothing missing' under a condition other than an empty filtered list", construct=f"return None under {[ (norm(t.ast), l) for t, l in deps ]}")
     logs = [n for n in walk_no_nested(tfm.node) if isinstance(n, ast.For) and any(isinstance(c, ast.Call) and norm(c.func) == "logger.error" for s in n.body for c in ast.walk(s))]
-    okl = len(logs) == 1 and isinstance(logs[0].iter, ast.Name) and logs[0].iter.id == tfm.params[0] and norm(logs[0].target) in norm(logs[0].body[0])
-    r3.check(okl, tfm, tfm.node, "the filter does not name every missing path", construct="missing path log loop")
+    okl = len(logs) == 1 and isinstance(logs[0].iter, ast.Name) and logs[0].iter.id == filt and norm(logs[0].target) in norm(logs[0].body[0]) and not [x for s in logs[0].body for x in ast.walk(s) if isinstance(x, (ast.If, ast.Break, ast.Continue))]
+    r3.check(okl, tfm, logs[0] if logs else tfm.node, "the filter does not name every missing path", construct="missing path log loop")
 
     # ------------------------------------------------------------------ R3.4
     r4 = report.rule("R3.4", "error-signal discipline: in the command functions every 'ERROR:' / 'found new file' log is followed on every path by an increment of a counter that the exit tail tests", 3)
